@@ -57,9 +57,23 @@ def h64(obj):
     return int.from_bytes(hashlib.blake2b(obj, digest_size=8).digest(), "big")
 
 
+def _readable(obj):
+    """bytes that are printable ASCII are shown as text in evidence samples"""
+    if isinstance(obj, (bytes, bytearray)):
+        b = bytes(obj)
+        if all(0x20 <= c < 0x7F for c in b):
+            return b.decode("ascii")
+        return {"$b": b.hex()}
+    if isinstance(obj, (list, tuple)):
+        return [_readable(x) for x in obj]
+    if isinstance(obj, dict):
+        return {str(k): _readable(v) for k, v in obj.items()}
+    return obj
+
+
 def short(obj, limit=400):
     """compact printable form of a case for evidence samples"""
-    s = enc(obj)
+    s = enc(_readable(obj))
     t = json.dumps(s, sort_keys=True)
     if len(t) > limit:
         return {"truncated": t[:limit], "full_len": len(t)}
